@@ -103,12 +103,18 @@ pub struct Beh {
     dm: Z,
     ec: Z,
     m: Mapper,
+    off: Z,
 }
 impl Beh {
     pub fn parse(d: &str, dm: &str, ec: &str, m: &str) -> Beh {
-        Beh { d: d.parse().unwrap(), dm: dm.parse().unwrap(), ec: ec.parse().unwrap(), m: Mapper::parse(m) }
+        Beh { d: d.parse().unwrap(), dm: dm.parse().unwrap(), ec: ec.parse().unwrap(), m: Mapper::parse(m), off: 0 }
+    }
+    /// the behaviour of a leaf built by a leaf factory with config z: the request is offset by z
+    pub fn with_off(&self, off: Z) -> Beh {
+        Beh { off, ..*self }
     }
     fn eval(&self, req: Z) -> (usize, Result<Z, Z>) {
+        let req = req + self.off;
         let k = (self.d + self.dm * req).rem_euclid(3) as usize;
         let r = if self.ec >= 0 && req.rem_euclid(3) == self.ec {
             Err(100 + req)
@@ -235,6 +241,11 @@ impl Service<Z> for Leaf {
 pub struct PostFut {
     fut: BoxFuture<Result<Z, Z>>,
     post: Mapper,
+}
+impl PostFut {
+    pub fn new(fut: BoxFuture<Result<Z, Z>>, post: Mapper) -> PostFut {
+        PostFut { fut, post }
+    }
 }
 impl Future for PostFut {
     type Output = Result<Z, Z>;
